@@ -25,6 +25,14 @@ import (
 	"github.com/tjfoc/gmsm/pkcs12"
 	"github.com/tjfoc/gmsm/sm2"
 	gx "github.com/tjfoc/gmsm/x509"
+	// every hash the Go ecosystem registers with crypto.RegisterHash is linked into this binary (as it is into many
+	// applications): the x509 package's own Hash numbering overlaps crypto.Hash only in part - x509.SM3 is 16, which is
+	// crypto.BLAKE2s_256 - and must never be served from that registry
+	_ "golang.org/x/crypto/blake2b"
+	_ "golang.org/x/crypto/blake2s"
+	_ "golang.org/x/crypto/md4"
+	_ "golang.org/x/crypto/ripemd160"
+	_ "golang.org/x/crypto/sha3"
 	"pgregory.net/rapid"
 
 	"verifharness/gen"
